@@ -41,6 +41,11 @@ pub mod c15g;
 #[cfg(feature = "c16")]
 pub mod c16;
 
+#[cfg(feature = "c18")]
+pub mod c18;
+#[cfg(feature = "c18")]
+#[path = "gen/c18.rs"]
+pub mod c18g;
 #[cfg(feature = "c19")]
 pub mod c19;
 #[cfg(feature = "c19")]
